@@ -100,6 +100,17 @@ def check_one(ctx, w, cfg, steps):
     return probs, single
 
 
+def nonl_midfile_model(ctx, w, cfg):
+    """known finding no-newline-midfile, by its state: after some prefix of the series the model's overlay holds a
+    file with a line that lacks its newline before the end (ModelChecks.overlay_wf is false) - whatever produced it:
+    a misplaced marker, or lines added behind a last line without newline"""
+    c = dict(cfg)
+    c["goal"] = ("A",)
+    line = l3gen.model_line(w, c)
+    out = ctx.model(["wf" + line[len("push"):]])[0]
+    return out.startswith("NWF")
+
+
 def nonl_midfile(w):
     """known finding no-newline-midfile: some hunk uses '\\ No newline at end of file' on a line that is followed by
     further lines of the same side in the same hunk"""
@@ -144,7 +155,12 @@ def corpus():
     w3 = {"files": {b"d/f": (b"x\n", 0o644), b"g": (b"keep\n", 0o644)}, "dirs": [], "applied": None, "series": b"p1.patch\np2.patch\n",
           "patches": {b"p1.patch": b"--- a/d/f\n+++ /dev/null\n@@ -1 +0,0 @@\n-x\n",
                       b"p2.patch": b"--- /dev/null\n+++ b/d\n@@ -0,0 +1 @@\n+now a file\n"}}
-    return [(w, dict(base), [(("C", 1), 1), (("A",), 1)]), (w2, dict(base), [(("C", 1), 1), (("A",), 1)]),
+    # the same finding through another door: lines added behind a last line that lacks its newline
+    w4 = {"files": {b"f": (b"a\nx", 0o644)}, "dirs": [], "applied": None, "series": b"p1.patch\np2.patch\n",
+          "patches": {b"p1.patch": b"--- a/f\n+++ b/f\n@@ -2,0 +3 @@\n+new\n",
+                      b"p2.patch": b"--- a/f\n+++ b/f\n@@ -3 +3 @@\n-new\n+NEW\n"}}
+    return [(w4, dict(base), [(("C", 1), 1), (("A",), 1)]),
+            (w, dict(base), [(("C", 1), 1), (("A",), 1)]), (w2, dict(base), [(("C", 1), 1), (("A",), 1)]),
             (w3, dict(base), [(("C", 1), 1), (("A",), 1)])]
 
 
@@ -188,10 +204,10 @@ def run(ctx):
         c1["threads"] = 1
         cases.append((w, c1))
         singles.append(single)
-        if probs and nonl_midfile(w):
-            ctx.known_finding("no-newline-midfile: a hunk that marks a line as lacking its newline although further lines of the same side "
-                              "follow leaves that line in the middle of the in-memory file; a later invocation loads the saved file with the "
-                              "two lines joined, so one push and split pushes differ")
+        if probs and (nonl_midfile(w) or nonl_midfile_model(ctx, w, cfg)):
+            ctx.known_finding("no-newline-midfile: an application leaves a line without newline before the end of the in-memory file (a marker "
+                              "on a hunk line that further lines of the same side follow, or lines added behind a last line that lacks its "
+                              "newline); a later invocation loads the saved file with the two lines joined, so one push and split pushes differ")
             probs = []
         if dir_file_conflict(ctx, w):
             # a single push that ends with a load error is "not compared" above; what the known finding is about is
@@ -234,7 +250,7 @@ def model_composes(ctx, cases):
             continue
         m2 = ctx.model([l3gen.model_line(w2, c)])[0]
         a, b = l3gen.strip_err(m_single).split(" | "), l3gen.strip_err(m2).split(" | ")
-        if a != b and nonl_midfile(w):
+        if a != b and (nonl_midfile(w) or nonl_midfile_model(ctx, w, cfg)):
             continue          # known finding no-newline-midfile (reported by the run on the binary above)
         if a != b:
             ctx.violation({"kind": "model-does-not-compose", "workspace": l3common.ws_json(w), "only_single": [x[:120] for x in a if x not in b][:4],
